@@ -193,6 +193,11 @@ uint64_t __g_vec_b;   /* ghost: arbitrary-but-fixed byte index observed by the c
       for (uint64_t __k = 0; __k < v->n; ++__k) np[__k] = v->p[__k]; \
       v->p = np; v->cap = CXX_VEC_CAP; } } \
   static inline void vec_##S##_push_back(vec_##S *v, T val) \
+  /* contract (for unbounded proofs): one more element, storage possibly reallocated; element VALUES are not described, \
+     i.e. the contract over-approximates the contents (sound for properties that do not depend on them) */ \
+  __CPROVER_requires(__CPROVER_rw_ok(v, sizeof(*v)) && v->n < 0xFFFFFFFFul) \
+  __CPROVER_assigns(v->p, v->n, v->cap) \
+  __CPROVER_ensures(v->n == __CPROVER_old(v->n) + 1 && v->cap >= v->n && __CPROVER_is_fresh(v->p, v->n * sizeof(T))) \
   { vec_##S##_grow(v, v->n + 1); v->p[v->n] = val; v->n = v->n + 1; } \
   static inline void vec_##S##_pop_back(vec_##S *v) { CXX_ASSERT(v->n > 0, "pop_back on empty vector"); v->n--; } \
   static inline void vec_##S##_pop_front(vec_##S *v) { CXX_ASSERT(v->n > 0, "pop_front on empty deque"); v->p++; v->n--; } \
